@@ -420,6 +420,8 @@ class SimProc:
         rec = CTX.rec
         S.yield_('popen')
         self.args = list(args)
+        self._cap_out = stdout == _real_subprocess.PIPE
+        self._cap_err = stderr == _real_subprocess.PIPE
         self.pid = S.new_vpid()
         self.returncode = None
         self.t0 = S.clock
@@ -534,9 +536,13 @@ class SimProc:
         if self.exited or self.killed:
             self._reap()
             CTX.rec.on_done(self, False)
+            # streams that are not pipes are not captured (None), as in
+            # subprocess.Popen.communicate
             if self.killed and not self.exited:
-                return b'', b''
-            return self._out.encode(), self._err.encode()
+                return (b'' if self._cap_out else None,
+                        b'' if self._cap_err else None)
+            return (self._out.encode() if self._cap_out else None,
+                    self._err.encode() if self._cap_err else None)
         CTX.rec.on_done(self, True)
         raise _real_subprocess.TimeoutExpired(self.args, timeout)
 
